@@ -561,7 +561,7 @@ def check_ls_structure(ctx):
         ctx.undecided("PEAK", LS + ":estimate", fi, f"{len(me)} arg-max statements in the peak branch")
 
 
-def check_accumulator_dtype(ctx, quals, rule="DTYPE"):
+def check_accumulator_dtype(ctx, quals, rule="DTYPE", image_params=None):
     """Working arrays of the spectral analysis are float64 whatever the image's dtype: an accumulator created with
     `np.zeros_like(<image data>)` (no dtype) inherits float32 / integer dtypes, so wave numbers or sums accumulated in it
     differ from those of the same image stored as float64 (or the in-place addition raises for integer images)."""
@@ -591,6 +591,17 @@ def check_accumulator_dtype(ctx, quals, rule="DTYPE"):
             return False
 
         tainted = set()
+        # locals that hold (a selection of) the image's own data: `x = field.data[mask]` — their dtype is the image's
+        for s_ in _ast.walk(fnode):
+            if isinstance(s_, _ast.Assign) and len(s_.targets) == 1 and isinstance(s_.targets[0], _ast.Name):
+                v_ = s_.value
+                while isinstance(v_, _ast.Subscript):
+                    v_ = v_.value
+                r_ = v_
+                while isinstance(r_, (_ast.Attribute, _ast.Subscript)):
+                    r_ = r_.value
+                if isinstance(v_, _ast.Attribute) and v_.attr == "data" and isinstance(r_, _ast.Name) and r_.id in params:
+                    params = set(params) | {s_.targets[0].id}
         for _ in range(3):
             for s_ in _ast.walk(fnode):
                 if isinstance(s_, _ast.Assign) and len(s_.targets) == 1 and isinstance(s_.targets[0], _ast.Name) and s_.targets[0].id not in tainted:
@@ -620,7 +631,7 @@ def check_accumulator_dtype(ctx, quals, rule="DTYPE"):
         if not m.has_func(q):
             continue
         fi = m.func(q)
-        bad = sites(fi.node, set(fi.all_params))
+        bad = sites(fi.node, set(fi.all_params) if image_params is None else set(fi.all_params) & set(image_params))
         n += 1
         ctx.decide(not bad, rule, fi.qualname + ":accumulators", (fi, bad[0]) if bad else fi, "no working array inherits the image's dtype",
                    f"`{U(bad[0])[:60] if bad else ''}` creates a working array in the image's own dtype: for a float32 or integer image the values accumulated in it (wave numbers, sums) "
